@@ -1,8 +1,140 @@
-import Karp.Driver.Proto
+import Karp.Driver.ReqJson
+import Karp.Model.Template
 
 namespace Karp.Driver.C13
-open Lean Karp.Driver
+open Lean Karp.Driver Karp.Driver.ReqJson Karp.Req Karp.Spec.K8s
 
-def handle : Handler := fun op _ _ => .error s!"unknown op {op}"
+def selJson (s : Sel) : Json :=
+  jObj [("key", jStr s.key), ("op", jStr (opName s.op)), ("values", jArr ((canonVals s.values).map jStr)),
+        ("minValues", jOptInt s.minValues)]
+
+def parseSel (j : Json) : Except String Sel := do
+  pure { key := ← strF j "key", op := parseOp (← strF j "op"), values := ← strList (← fld j "values"),
+         minValues := ← intO j "minValues" }
+
+def selMatches (sels : List Sel) (v : Val) : Bool := sels.all (fun s => k8sMatch s.op s.values (some v))
+
+/-- `c13.roundtrip`: one key; in-memory requirement = intersection of the expressions; serialise; parse back. -/
+def opRoundtrip (inp impl : Json) : Except String Resp := do
+  let key ← strF inp "key"
+  let es ← (← arrF inp "exprs").mapM parseExpr
+  let probes ← strList (← fld inp "probes")
+  let panicResp : Resp := { model := some (jObj [("panic", jStr "index-out-of-range")]), spec := some true }
+  let r ← match build key es with | .ok r => pure r | .error "panic" => return panicResp | .error e => throw e
+  let sels := r.toSelectors
+  let back ← match fromSelectors sels with
+    | .ok (some b) => pure b
+    | _ => throw "model: serialised entries do not parse back"
+  let model := jObj [("mem", snap r), ("sels", jArr (sels.map selJson)), ("back", snap back),
+    ("hasMem", jArr (probes.map (fun v => jBool (r.has v)))), ("hasBack", jArr (probes.map (fun v => jBool (back.has v))))]
+  let res : Except String (Bool × String) := do
+    let hM ← boolList (← fld impl "hasMem")
+    let hB ← boolList (← fld impl "hasBack")
+    let isels ← (← arrF impl "sels").mapM parseSel
+    let rows := probes.zip (hM.zip hB)
+    -- (1) parsed-back requirement admits exactly what the in-memory requirement admits
+    match rows.find? (fun (_, a, b) => a != b) with
+    | some (v, a, _) => return (false, s!"value {v.quote}: in-memory requirement admits = {a}, the requirement parsed back from the written entries admits = {!a}")
+    | none => pure ()
+    -- (2) the written entries, read with Kubernetes semantics, admit exactly the same values
+    match rows.find? (fun (v, a, _) => a != selMatches isels v) with
+    | some (v, a, _) => return (false, s!"value {v.quote}: in-memory requirement admits = {a}, but the written node-selector entries (Kubernetes semantics) admit = {!a}")
+    | none => pure ()
+    -- (3) minValues preserved on the parsed-back requirement and carried by every entry
+    let mvM ← intO (← fld impl "mem") "minValues"
+    let mvB ← intO (← fld impl "back") "minValues"
+    if mvM != mvB then return (false, "minValues changed across serialisation")
+    if isels.any (fun s => s.minValues != mvM) then return (false, "an emitted entry does not carry the requirement's minValues")
+    pure (true, "")
+  let (ok, why) := match res with
+    | .ok x => x
+    | .error e => (false, "implementation output unusable (panic?): " ++ e)
+  pure { model := some model, spec := some ok, why := why }
+
+/-- `c13.any`: relational. impl = {"outs": [..]} (n calls of Any()) or {"panic": ..} -/
+def opAny (inp impl : Json) : Except String Resp := do
+  let key ← strF inp "key"
+  let es ← (← arrF inp "exprs").mapM parseExpr
+  let r ← match build key es with
+    | .ok r => pure r
+    | .error "panic" => return { allowed := some ((fldOpt impl "panic").isSome), spec := some true, why := "constructor panics (no operand)" }
+    | .error e => throw e
+  match fldOpt impl "outs" with
+  | none =>
+    -- the real code panicked: never allowed by the relation; and "building never panics" is the property
+    pure { allowed := some false, spec := some false, why := "Requirement.Any() panicked" }
+  | some o => do
+    let outs ← strList o
+    let bad := outs.find? (fun v => !r.anyAllowed v)
+    let badSpec := if allValid es then outs.find? (fun v => v != "" && !specHas es v) else none
+    pure { allowed := some bad.isNone,
+           spec := some badSpec.isNone,
+           why := match badSpec, bad with
+             | some v, _ => s!"Any() returned {v.quote}, which the requirement's own expressions reject (Kubernetes semantics)"
+             | none, some v => s!"Any() returned {v.quote}, not an outcome of the model relation"
+             | none, none => "" }
+
+/-- `c13.template`: spec-level checks of a real `ToNodeClaim()` result against the template. -/
+def opTemplate (inp impl : Json) : Except String Resp := do
+  if (fldOpt impl "invalid").isSome then
+    return { allowed := some true, spec := some true, why := "NodePool rejected by validation (outside the property's domain)" }
+  let res : Except String (Bool × String) := do
+    if (fldOpt impl "panic").isSome then return (false, "ToNodeClaim panicked for a NodePool that passes validation")
+    let tmplLabels ← (← arrF inp "labels").mapM (fun j => do pure ((← strF j "k"), (← strF j "v")))
+    let npName ← strF inp "name"
+    let labels ← (← arrF impl "labels").mapM (fun j => do pure ((← strF j "k"), (← strF j "v")))
+    let keysJ ← arrF impl "keys"
+    -- per key: in-memory snapshot, written entries, probes and both Has rows
+    for kj in keysJ do
+      let k ← strF kj "key"
+      let probes ← strList (← fld kj "probes")
+      let hM ← boolList (← fld kj "hasMem")
+      let hB ← boolList (← fld kj "hasBack")
+      let isels ← (← arrF kj "sels").mapM parseSel
+      if Karp.Template.simulationKeys.contains k then
+        if !isels.isEmpty then return (false, s!"simulation-only key {k} was written to the NodeClaim")
+      else
+        let rows := probes.zip (hM.zip hB)
+        match rows.find? (fun (v, a, b) => a != b || a != selMatches isels v) with
+        | some (v, a, _) => return (false, s!"key {k}, value {v.quote}: scheduler admits = {a} but the written NodeClaim requirement does not agree")
+        | none => pure ()
+        let mvM ← intO kj "mvMem"
+        let mvB ← intO kj "mvBack"
+        if mvM != mvB then return (false, s!"key {k}: minValues changed")
+      -- a materialised custom label must be admitted by the in-memory requirement
+      match labels.lookup k with
+      | some v =>
+        let idx := probes.idxOf v
+        if Karp.Template.customKey k && idx < probes.length && !(hM.getD idx true) then
+          return (false, s!"label {k}={v} written on the NodeClaim is rejected by the NodeClaim's own requirement")
+      | none => pure ()
+    -- template labels survive; nodepool label
+    for (k, v) in tmplLabels do
+      match labels.lookup k with
+      | some v' => if v' != v && !(Karp.Template.customKey k) then return (false, s!"template label {k} changed")
+      | none => return (false, s!"template label {k} missing on the NodeClaim")
+    if labels.lookup Karp.Gen.Labels.nodePoolLabelKey != some npName then return (false, "nodepool label missing or wrong")
+    -- taints / hash
+    if !(jsonEq (← fld impl "taints") (← fld inp "taints")) then return (false, "taints differ from the template")
+    if !(jsonEq (← fld impl "startupTaints") (← fld inp "startupTaints")) then return (false, "startup taints differ from the template")
+    if (← strF impl "hash") != (← strF impl "expectHash") then return (false, "nodepool-hash annotation is not the NodePool's hash")
+    if (← strF impl "hashVersion") != Karp.Gen.Template.nodePoolHashVersion then return (false, "hash version annotation wrong")
+    -- instance types: subset of options, at most MaxInstanceTypes
+    let its ← strList (← fld impl "instanceTypes")
+    let opts ← strList (← fld impl "options")
+    if its.any (fun i => !opts.contains i) then return (false, "instance-type requirement names a type outside the scheduler's options")
+    if its.length > Karp.Gen.Template.maxInstanceTypes then return (false, "more than MaxInstanceTypes instance types")
+    pure (true, "")
+  let (ok, why) := match res with
+    | .ok x => x
+    | .error e => (false, "implementation output unusable: " ++ e)
+  pure { allowed := some true, spec := some ok, why := why }
+
+def handle : Handler := fun op inp impl =>
+  match op with
+  | "c13.roundtrip" => opRoundtrip inp impl
+  | "c13.any" => opAny inp impl
+  | "c13.template" => opTemplate inp impl
+  | _ => .error s!"unknown op {op}"
 
 end Karp.Driver.C13
